@@ -104,6 +104,7 @@ def main():
     ap.add_argument("--props", default=None)
     ap.add_argument("--tier", default="quick")
     ap.add_argument("--skip-confirm", action="store_true")
+    ap.add_argument("--confirm-only", action="store_true", help="only the scratch-worktree confirmation (safe to run in parallel)")
     a = ap.parse_args()
     mdir = os.path.abspath(a.mdir)
     meta = json.load(open(os.path.join(mdir, "meta.json")))
@@ -119,6 +120,10 @@ def main():
     if not a.skip_confirm:
         result["confirmation"] = confirm(dest, f"/tmp/seedverify-{prop}-{name}")
     props = a.props.split(",") if a.props else [prop]
+    if a.confirm_only:
+        json.dump(result, open(rpath, "w"), indent=1)
+        print(json.dumps({"mutant": f"{prop}-{name}", "confirmation": result.get("confirmation")}))
+        return
     if result.get("confirmation", {}).get("confirmed") or a.skip_confirm:
         runs = run_checks(os.path.join(dest, "patch.diff"), props, a.tier)
         result.setdefault("checks", {}).update(runs)
